@@ -163,11 +163,20 @@ pub uninterp spec fn canon_of(human: Seq<char>) -> Seq<u8>;
 pub uninterp spec fn human_of(canonical: Seq<u8>) -> Seq<char>;
 pub trait Api {
     fn addr_validate(&self, human: &str) -> (r: StdResult<Addr>)
+//%if A
+        ensures r is Ok, r->Ok_0.0@ == human@;
+//%else
         ensures r is Ok ==> r->Ok_0.0@ == human@;
+//%endif
     fn addr_canonicalize(&self, human: &str) -> (r: StdResult<CanonicalAddr>)
         ensures r is Ok ==> r->Ok_0.0@ == canon_of(human@);
     fn addr_humanize(&self, canonical: &CanonicalAddr) -> (r: StdResult<Addr>)
+//%if A
+        // mode A ("can always succeed"): environment services do not fail (address (de)canonicalisation errors are outside the statement of C20)
+        ensures r is Ok, r->Ok_0.0@ == human_of(canonical.0@) && canon_of(r->Ok_0.0@) == canonical.0@;
+//%else
         ensures r is Ok ==> r->Ok_0.0@ == human_of(canonical.0@) && canon_of(r->Ok_0.0@) == canonical.0@;
+//%endif
 }
 
 // ---- coins, message info, env ----
@@ -180,7 +189,13 @@ pub struct Env { pub contract: ContractInfo }
 // ---- binary payloads: serde is modelled as an uninterpreted codec ----
 pub struct Binary { pub dummy: u8 }
 pub uninterp spec fn bin_of<T>(t: T) -> Binary;
-#[verifier::external_body] pub fn to_binary<T>(t: &T) -> (r: StdResult<Binary>) ensures r is Ok ==> r->Ok_0 == bin_of::<T>(*t) { unimplemented!() }
+#[verifier::external_body] pub fn to_binary<T>(t: &T) -> (r: StdResult<Binary>)
+//%if A
+    ensures r is Ok, r->Ok_0 == bin_of::<T>(*t)
+//%else
+    ensures r is Ok ==> r->Ok_0 == bin_of::<T>(*t)
+//%endif
+    { unimplemented!() }
 // deserialisation is a deterministic (uninterpreted) function of the bytes
 pub uninterp spec fn decode<T>(b: Binary) -> StdResult<T>;
 #[verifier::external_body] pub fn from_binary<T>(b: &Binary) -> (r: StdResult<T>) ensures r == decode::<T>(*b) { unimplemented!() }
@@ -256,12 +271,27 @@ impl QuerierWrapper { pub open spec fn world(&self) -> World { self.w@ } }
 
 // ---- packages/haloswap/src/querier.rs: each body is one `querier.query(..)` JSON round trip (external): ASSUMED ----
 #[verifier::external_body] pub fn query_balance(querier: &QuerierWrapper, account_addr: Addr, denom: String) -> (r: StdResult<Uint128>)
-    ensures r is Ok ==> r->Ok_0.0 as nat == querier.world().bank_bal(account_addr.0@, denom@) { unimplemented!() }
+//%if A
+    ensures r is Ok, r->Ok_0.0 as nat == querier.world().bank_bal(account_addr.0@, denom@)
+//%else
+    ensures r is Ok ==> r->Ok_0.0 as nat == querier.world().bank_bal(account_addr.0@, denom@)
+//%endif
+    { unimplemented!() }
 #[verifier::external_body] pub fn query_token_balance(querier: &QuerierWrapper, contract_addr: Addr, account_addr: Addr) -> (r: StdResult<Uint128>)
-    ensures r is Ok ==> r->Ok_0.0 as nat == querier.world().tok_bal(contract_addr.0@, account_addr.0@) { unimplemented!() }
+//%if A
+    ensures r is Ok, r->Ok_0.0 as nat == querier.world().tok_bal(contract_addr.0@, account_addr.0@)
+//%else
+    ensures r is Ok ==> r->Ok_0.0 as nat == querier.world().tok_bal(contract_addr.0@, account_addr.0@)
+//%endif
+    { unimplemented!() }
 #[verifier::external_body] pub fn query_token_info(querier: &QuerierWrapper, contract_addr: Addr) -> (r: StdResult<TokenInfoResponse>)
+//%if A
+    ensures r is Ok, r->Ok_0.total_supply.0 as nat == querier.world().tok_supply(contract_addr.0@)
+//%else
     ensures r is Ok ==> r->Ok_0.total_supply.0 as nat == querier.world().tok_supply(contract_addr.0@)
-        && querier.world().tok_decimals.dom().contains(contract_addr.0@) && r->Ok_0.decimals == querier.world().tok_decimals[contract_addr.0@] { unimplemented!() }
+        && querier.world().tok_decimals.dom().contains(contract_addr.0@) && r->Ok_0.decimals == querier.world().tok_decimals[contract_addr.0@]
+//%endif
+    { unimplemented!() }
 
 // ---- std / small dependencies used by the pair ----
 impl Eq for Uint128 {}
